@@ -12,7 +12,7 @@ use std::{
     ops::{Deref, DerefMut},
 };
 
-use ahash::AHashMap as HashMap;
+use std::collections::HashMap; // VERIF MODEL: std map instead of ahash (never executed by a harness)
 
 use crate::cell::{AtomicRef, AtomicRefCell, AtomicRefMut};
 use crate::SystemData;
@@ -33,7 +33,10 @@ mod setup;
 ///
 /// * `T`: The type of the resource
 pub struct Fetch<'a, T: 'a> {
-    inner: AtomicRef<'a, dyn Resource>,
+    inner: Option<AtomicRef<'a, dyn Resource>>,
+    // VERIF MODEL: when set, the resource is borrowed directly (no cell, no
+    // trait object); see `verif_from_ref`.
+    direct: Option<&'a T>,
     phantom: PhantomData<&'a T>,
 }
 
@@ -44,14 +47,18 @@ where
     type Target = T;
 
     fn deref(&self) -> &T {
-        unsafe { self.inner.downcast_ref_unchecked() }
+        if let Some(r) = self.direct {
+            return r;
+        }
+        unsafe { self.inner.as_ref().unwrap().downcast_ref_unchecked() }
     }
 }
 
 impl<'a, T> Clone for Fetch<'a, T> {
     fn clone(&self) -> Self {
         Fetch {
-            inner: AtomicRef::clone(&self.inner),
+            inner: self.inner.as_ref().map(AtomicRef::clone),
+            direct: self.direct,
             phantom: PhantomData,
         }
     }
@@ -69,7 +76,17 @@ where
     /// VERIF MODEL: borrows the resource stored in `cell` (it must hold a `T`).
     pub fn verif_from_cell(cell: &'a AtomicRefCell<Box<dyn Resource>>) -> Self {
         Fetch {
-            inner: AtomicRef::map(cell.borrow(), Box::as_ref),
+            inner: Some(AtomicRef::map(cell.borrow(), Box::as_ref)),
+            direct: None,
+            phantom: PhantomData,
+        }
+    }
+
+    /// VERIF MODEL: borrows `r` directly (no cell, no trait object).
+    pub fn verif_from_ref(r: &'a T) -> Self {
+        Fetch {
+            inner: None,
+            direct: Some(r),
             phantom: PhantomData,
         }
     }
@@ -82,7 +99,17 @@ where
     /// VERIF MODEL: mutably borrows the resource stored in `cell` (it must hold a `T`).
     pub fn verif_from_cell(cell: &'a AtomicRefCell<Box<dyn Resource>>) -> Self {
         FetchMut {
-            inner: AtomicRefMut::map(cell.borrow_mut(), Box::as_mut),
+            inner: Some(AtomicRefMut::map(cell.borrow_mut(), Box::as_mut)),
+            direct: None,
+            phantom: PhantomData,
+        }
+    }
+
+    /// VERIF MODEL: borrows `r` directly (no cell, no trait object).
+    pub fn verif_from_mut(r: &'a mut T) -> Self {
+        FetchMut {
+            inner: None,
+            direct: Some(r),
             phantom: PhantomData,
         }
     }
@@ -97,7 +124,9 @@ where
 ///
 /// * `T`: The type of the resource
 pub struct FetchMut<'a, T: 'a> {
-    inner: AtomicRefMut<'a, dyn Resource>,
+    inner: Option<AtomicRefMut<'a, dyn Resource>>,
+    // VERIF MODEL: see `Fetch::direct`
+    direct: Option<&'a mut T>,
     phantom: PhantomData<&'a mut T>,
 }
 
@@ -108,7 +137,10 @@ where
     type Target = T;
 
     fn deref(&self) -> &T {
-        unsafe { self.inner.downcast_ref_unchecked() }
+        if let Some(r) = self.direct.as_ref() {
+            return r;
+        }
+        unsafe { self.inner.as_ref().unwrap().downcast_ref_unchecked() }
     }
 }
 
@@ -117,7 +149,10 @@ where
     T: Resource,
 {
     fn deref_mut(&mut self) -> &mut T {
-        unsafe { self.inner.downcast_mut_unchecked() }
+        if let Some(r) = self.direct.as_mut() {
+            return r;
+        }
+        unsafe { self.inner.as_mut().unwrap().downcast_mut_unchecked() }
     }
 }
 
@@ -459,7 +494,8 @@ impl World {
         let res_id = ResourceId::new::<T>();
 
         self.resources.get(&res_id).map(|r| Fetch {
-            inner: AtomicRef::map(r.borrow(), Box::as_ref),
+            inner: Some(AtomicRef::map(r.borrow(), Box::as_ref)),
+            direct: None,
             phantom: PhantomData,
         })
     }
@@ -480,7 +516,8 @@ impl World {
         id.assert_same_type_id::<T>();
 
         self.resources.get(&id).map(|r| Fetch {
-            inner: AtomicRef::map(r.borrow(), Box::as_ref),
+            inner: Some(AtomicRef::map(r.borrow(), Box::as_ref)),
+            direct: None,
             phantom: PhantomData,
         })
     }
@@ -509,7 +546,8 @@ impl World {
         let res_id = ResourceId::new::<T>();
 
         self.resources.get(&res_id).map(|r| FetchMut {
-            inner: AtomicRefMut::map(r.borrow_mut(), Box::as_mut),
+            inner: Some(AtomicRefMut::map(r.borrow_mut(), Box::as_mut)),
+            direct: None,
             phantom: PhantomData,
         })
     }
@@ -530,7 +568,8 @@ impl World {
         id.assert_same_type_id::<T>();
 
         self.resources.get(&id).map(|r| FetchMut {
-            inner: AtomicRefMut::map(r.borrow_mut(), Box::as_mut),
+            inner: Some(AtomicRefMut::map(r.borrow_mut(), Box::as_mut)),
+            direct: None,
             phantom: PhantomData,
         })
     }
